@@ -339,6 +339,69 @@ impl Monitor for QuoteMon {
     }
 }
 
+/// Liquidity quotes: `increase_liquidity_quote` / `decrease_liquidity_quote` for the liquidity amount of every
+/// successful increase / decrease of the histories must give exactly what the owner paid / received
+/// (transfer fees included), and never fail there.
+#[derive(Default)]
+struct LiqQuoteMon;
+
+impl Monitor for LiqQuoteMon {
+    fn after(&mut self, w: &mut World, obs: &Obs, acc: &mut Acc) {
+        let name = obs.ix.name;
+        let inc = name == "increase_liquidity" || name == "increase_liquidity_v2";
+        let dec = name == "decrease_liquidity" || name == "decrease_liquidity_v2";
+        if !(inc || dec) || !obs.ok() {
+            return;
+        }
+        let mut r = codec::Rd::new(&obs.ix.data, 8);
+        let l = r.u128();
+        let pool_key = obs.ix.key("whirlpool");
+        let (Some(pre), Some(pos)) = (obs.pre.data(&pool_key).and_then(codec::Pool::decode), obs.pre.data(&obs.ix.key("position")).and_then(codec::Position::decode)) else { return };
+        let (oa, ob) = (obs.ix.key("token_owner_account_a"), obs.ix.key("token_owner_account_b"));
+        if oa == ob {
+            return;
+        }
+        let (tfa, tfb) = (transfer_fee(&obs.pre, &pre.token_mint_a), transfer_fee(&obs.pre, &pre.token_mint_b));
+        let slippage: u16 = *rnd::pick(&mut w.r, &[0u16, 1, 100, 5000, 10000]);
+        let d = |k: &Pubkey| bal(&w.bank, k) as i128 - bal(&obs.pre, k) as i128;
+        let fail = |acc: &mut Acc, sig: &str, detail: String| {
+            acc.violation(format!("sdk:liquidity_quote:{sig}"), detail, json!({"instruction": ix_brief(&obs.ix), "sqrt_price": pre.sqrt_price.to_string(), "range": [pos.tick_lower_index, pos.tick_upper_index], "liquidity": l.to_string()}));
+        };
+        acc.count("liquidity_quotes_compared");
+        if tfa.is_some() || tfb.is_some() {
+            acc.count("liquidity_quotes_transfer_fee");
+        }
+        if inc {
+            let q = quiet_catch(|| sdk::increase_liquidity_quote(l.into(), slippage, pre.sqrt_price.into(), pos.tick_lower_index, pos.tick_upper_index, tfa, tfb)).unwrap_or(Err("sdk panicked"));
+            match q {
+                Err(e) => fail(acc, "sdk_fails_where_program_succeeds", format!("program deposited ({}, {}); sdk error {e}", -d(&oa), -d(&ob))),
+                Ok(q) => {
+                    if q.token_est_a as i128 != -d(&oa) || q.token_est_b as i128 != -d(&ob) {
+                        fail(acc, "amounts", format!("owner paid ({}, {}); sdk estimates ({}, {})", -d(&oa), -d(&ob), q.token_est_a, q.token_est_b));
+                    }
+                    if q.token_max_a < q.token_est_a || q.token_max_b < q.token_est_b {
+                        fail(acc, "slippage_side", format!("maxima ({}, {}) below the estimates ({}, {}) at {slippage} bps", q.token_max_a, q.token_max_b, q.token_est_a, q.token_est_b));
+                    }
+                }
+            }
+        } else {
+            let q = quiet_catch(|| sdk::decrease_liquidity_quote(l.into(), slippage, pre.sqrt_price.into(), pos.tick_lower_index, pos.tick_upper_index, tfa, tfb)).unwrap_or(Err("sdk panicked"));
+            match q {
+                Err(e) => fail(acc, "sdk_fails_where_program_succeeds", format!("program paid out ({}, {}); sdk error {e}", d(&oa), d(&ob))),
+                Ok(q) => {
+                    if q.token_est_a as i128 != d(&oa) || q.token_est_b as i128 != d(&ob) {
+                        fail(acc, "amounts", format!("owner received ({}, {}); sdk estimates ({}, {})", d(&oa), d(&ob), q.token_est_a, q.token_est_b));
+                    }
+                    if q.token_min_a > q.token_est_a || q.token_min_b > q.token_est_b {
+                        fail(acc, "slippage_side", format!("minima ({}, {}) above the estimates ({}, {}) at {slippage} bps", q.token_min_a, q.token_min_b, q.token_est_a, q.token_est_b));
+                    }
+                }
+            }
+        }
+        acc.situation(format!("lq:{}:tf{}:{}", if inc { "inc" } else { "dec" }, (tfa.is_some() || tfb.is_some()) as u8, if pre.tick_current_index < pos.tick_lower_index { "below" } else if pre.tick_current_index >= pos.tick_upper_index { "above" } else { "in" }));
+    }
+}
+
 fn main() {
     let args: Vec<String> = std::env::args().collect();
     let mut tier = match std::env::var("VERIF_TIER").as_deref() {
@@ -370,7 +433,7 @@ fn main() {
     }
     vcheck::report::capture_stdout();
     let mut rep = Report::new("C20", tier, seed);
-    rep.rule = "the Rust core SDK (rust-sdk/core) linked next to the program: (a) tick_index_to_sqrt_price on ALL 887273 ticks and sqrt_price_to_tick_index at every boundary +-1 and on a random interior sample equal the program's; (b) try_get_amount_delta_a/b, try_get_next_sqrt_price_from_a/b and try_get_token_estimates_from_liquidity on hostile inputs: equal values where the program returns Ok, an SDK error wherever the program rejects as overflowing, no SDK error where the program succeeds; (c) every swap_v2 of history workloads (static, adaptive, transfer-fee pools) is re-judged with no price limit on a clone of the pre-state and compared with swap_quote_by_input/output_token built from the decoded pre-state (pool, tick arrays of both encodings incl. merely named ones as zeroed arrays, oracle, epoch transfer fees): amounts in/out and total fee equal when the program succeeds, no SDK failure there, an SDK number on a program refusal only for partial exact-out fills / running off the arrays, slippage bound on the safe side. distinct = (function, magnitude) and (mode, direction, outcome, adaptive, transfer fee)".into();
+    rep.rule = "the Rust core SDK (rust-sdk/core) linked next to the program: (a) tick_index_to_sqrt_price on ALL 887273 ticks and sqrt_price_to_tick_index at every boundary +-1 and on a random interior sample equal the program's; (b) try_get_amount_delta_a/b, try_get_next_sqrt_price_from_a/b and try_get_token_estimates_from_liquidity on hostile inputs: equal values where the program returns Ok, an SDK error wherever the program rejects as overflowing, no SDK error where the program succeeds; (c) every swap_v2 of history workloads (static, adaptive, transfer-fee pools) is re-judged with no price limit on a clone of the pre-state and compared with swap_quote_by_input/output_token built from the decoded pre-state (pool, tick arrays of both encodings incl. merely named ones as zeroed arrays, oracle, epoch transfer fees): amounts in/out and total fee equal when the program succeeds, no SDK failure there, an SDK number on a program refusal only for partial exact-out fills / running off the arrays, slippage bound on the safe side; (d) every successful increase/decrease_liquidity(_v2) of the same histories is compared with increase_liquidity_quote / decrease_liquidity_quote for its liquidity amount: the estimates equal what the owner paid / received (transfer fees included), the SDK does not fail, maxima/minima on the safe side. distinct = (function, magnitude) and (mode, direction, outcome, adaptive, transfer fee)".into();
     rep.assumptions = vec![
         "`ethnum` is not available offline: the SDK is compiled against /verif/vendor/ethnum-shim, a U256 over `uint` 0.9.5 with the std-integer semantics ethnum documents (checked_shl fails only for shifts >= 256)".into(),
         "only the Rust core is exercised; its TypeScript/WASM packaging cannot be built offline".into(),
@@ -381,11 +444,13 @@ fn main() {
         seed ^ 0x20,
         per_shard,
         move |_r| HistCfg { ops: 120, spl_only: false, allow_adaptive: true, allow_transfer_fee: true, w_swap: 60, w_liq: 24, w_fees: 2, w_lifecycle: 2, w_clock: 10, w_setters: 2, w_burst: 1, ..Default::default() },
-        || vec![Box::new(QuoteMon) as Box<dyn Monitor>],
+        || vec![Box::new(QuoteMon) as Box<dyn Monitor>, Box::new(LiqQuoteMon) as Box<dyn Monitor>],
     );
     acc.merge(acc2);
     rep.acc = acc;
     rep.floor("ticks_compared", 887_273);
+    rep.floor("liquidity_quotes_compared", 2_000);
+    rep.floor("liquidity_quotes_transfer_fee", 200);
     rep.floor("delta_both_ok", 300_000);
     rep.floor("estimates_both_ok", 100_000);
     rep.floor("quotes_program_ok", 1500);
